@@ -5,5 +5,7 @@ TESTS = [
       {"checks": 40000, "shards": 5, "timeout": 1500}),
 ]
 ASSUMPTIONS = [
-    "NFSv4.0: byte equality is asserted for the result of the seqid-bearing operation (and the operations before it); two OPENs under one seqid with different arguments are the same request (RFC 7530 9.1.9) and get the cached reply; at most one request waits behind an in-progress transaction of an open-owner (a second waiter would make the wake-up order scheduler dependent)",
+    "NFSv4.0: byte equality is asserted for the result of the seqid-bearing operation (and the operations before it); two OPENs under one seqid with different arguments are the same request (RFC 7530 9.1.9) and get the cached reply. The operation that follows a replayed successful OPEN in the generated COMPOUND (GETFH) must also return what it returned the first time, i.e. the replay re-establishes the opened file as current file handle (the reply the client gets for its retransmitted PUTFH; OPEN; GETFH must be the reply it was given the first time; Linux nfsd keeps the file handle in its replay cache for the same reason); the pinned tree returned the directory's handle (finding C19/nfs40-replayed-open-loses-current-filehandle, fixed)",
+    "NFSv4.0: any number of identical retransmissions may wait behind an in-progress transaction of an open-owner (each must return with the original's reply); a waiter whose content differs from the others (other operation, other state ID) is not generated together with them, because which waiter the server serves first is up to the Go scheduler (counted as excluded_second_waiter_with_other_content)",
+    "NFSv4.0: the client chooses the seqid of the first request of a new open-owner or lock-owner (RFC 7530 9.1.7); the simulators start from 0, 1 or 2^32-4..2^32-1. The successor of 2^32-1 is 1: nextSeqID in nfs40_program.go documents that owner seqids follow the state ID rule of RFC 7530 9.1.3 (zero is skipped), and the model follows the code's documentation; a first seqid of 0 is accepted like any other",
 ]
